@@ -38,6 +38,8 @@ struct FnDir {
     boolops: bool,
     nocanary: bool,
     nopub: bool,
+    hoist: Option<usize>,
+    sig: Option<String>,
     substs: Vec<(String, String)>,
     spec: String,
     closures: HashMap<usize, String>,
@@ -182,6 +184,8 @@ fn parse_template(path: &Path, nodes: &mut Vec<Node>) {
                         "boolops" => d.boolops = true,
                         "nocanary" => d.nocanary = true,
                         "nopub" => d.nopub = true,
+                        "hoist" => d.hoist = Some(rest.parse().unwrap_or_else(|_| die(&format!("{sctx}: @@hoist needs closure ordinal")))),
+                        "sig" => d.sig = Some(rest),
                         "from" => d.from = Some(rest),
                         "to" => d.to = Some(rest),
                         "subst" => d.substs.push(parse_subst(&rest, &sctx)),
@@ -468,6 +472,16 @@ impl<'a, 'ast> Visit<'ast> for Ed<'a> {
     }
 
     fn visit_expr_await(&mut self, e: &'ast syn::ExprAwait) {
+        // E4: `future::join(a, b).await` -> `(a, b)`: a tuple expression evaluates a, then b
+        if let syn::Expr::Call(c) = &*e.base {
+            if let syn::Expr::Path(p) = &*c.func {
+                let segs: Vec<String> = p.path.segments.iter().map(|s| s.ident.to_string()).collect();
+                if segs.last().map(|s| s == "join").unwrap_or(false) && segs.iter().any(|s| s == "future") {
+                    let r = p.span().byte_range();
+                    self.push(r.start, r.end, "", "E4-join-sequenced", false);
+                }
+            }
+        }
         let s = e.dot_token.span().byte_range().start;
         let t = e.await_token.span().byte_range().end;
         self.push(s, t, "", "E3-await", false);
@@ -556,7 +570,15 @@ impl<'a, 'ast> Visit<'ast> for Ed<'a> {
         if let Some(inv) = self.dir.loops.get(&idx) {
             self.loops_used.push(idx);
             let b = l.body.span().byte_range().start;
-            self.push(b, b, format!("\n{}\n", inv.trim_end()), "splice-loop-invariant", false);
+            // optional first line `iter <name>`: names the ghost iterator (`for x in name: expr`)
+            let mut inv_text = inv.trim_end().to_string();
+            let first = inv_text.lines().next().unwrap_or("").trim().to_string();
+            if let Some(name) = first.strip_prefix("iter ") {
+                let e = l.expr.span().byte_range().start;
+                self.push(e, e, format!("{}: ", name.trim()), "splice-loop-iter-name", false);
+                inv_text = inv_text.lines().skip(1).collect::<Vec<_>>().join("\n");
+            }
+            self.push(b, b, format!("\n{}\n", inv_text), "splice-loop-invariant", false);
         }
         visit::visit_expr_for_loop(self, l);
     }
@@ -810,6 +832,21 @@ fn stmt_text_no_attrs<'s>(src: &'s str, s: &syn::Stmt, start: usize, end: usize)
     src[st..end].trim_start()
 }
 
+struct ClosureFinder<'ast> {
+    want: usize,
+    seen: usize,
+    found: Option<&'ast syn::ExprClosure>,
+}
+impl<'ast> Visit<'ast> for ClosureFinder<'ast> {
+    fn visit_expr_closure(&mut self, c: &'ast syn::ExprClosure) {
+        if self.seen == self.want && self.found.is_none() {
+            self.found = Some(c);
+        }
+        self.seen += 1;
+        visit::visit_expr_closure(self, c);
+    }
+}
+
 // ------------------------------------------------------------------------------------------------
 // main
 
@@ -965,7 +1002,22 @@ fn main() {
                 let mut counts: BTreeMap<String, usize> = BTreeMap::new();
                 let emitted: String;
                 let src_range: (usize, usize);
-                if d.is_slice {
+                if let Some(k) = d.hoist {
+                    // E11: closure literal #k of the function is emitted as a named function; the
+                    // signature is hand-written (closure parameter types are inferred in the source)
+                    let mut cf = ClosureFinder { want: k, seen: 0, found: None };
+                    cf.visit_block(f.block);
+                    let c = cf.found.unwrap_or_else(|| die(&format!("{ctx}: closure#{k} to hoist not found ({} closures)", cf.seen)));
+                    let sigt = d.sig.clone().unwrap_or_else(|| die(&format!("{ctx}: @@hoist needs @@sig")));
+                    ed.visit_expr(&c.body);
+                    ed.finish_cfg();
+                    check_used(&ed, d, &ctx);
+                    let br = c.body.span().byte_range();
+                    let body = apply_edits(&src.text, br.start, br.end, &ed.edits, &mut counts).unwrap_or_else(|e| die(&format!("{ctx}: {e}")));
+                    *counts.entry("E11-closure-hoisted".into()).or_insert(0) += 1;
+                    emitted = format!("{sigt}\n{}{{\n{}{}\n}}\n", d.spec, d.pre, body);
+                    src_range = (c.span().byte_range().start, br.end);
+                } else if d.is_slice {
                     let from = d.from.as_deref().unwrap_or_else(|| die(&format!("{ctx}: @@slice needs @@from")));
                     let to = d.to.as_deref().unwrap_or(from);
                     let mut bf = BlockFinder { src: &src.text, from, found: None };
